@@ -52,17 +52,21 @@ class SingleFieldSubscriptionsRule(ValidationRule):
                 for definition in document.definitions
                 if isinstance(definition, FragmentDefinitionNode)
             }
-            grouped_field_set, _new_defer_usages, forbidden_directive_instances = (
-                collect_fields(
-                    schema,
-                    fragments,
-                    variable_values,
-                    subscription_type,
-                    node,
-                    self.context.hide_suggestions,
-                    True,
+            try:
+                grouped_field_set, _new_defer_usages, forbidden_directive_instances = (
+                    collect_fields(
+                        schema,
+                        fragments,
+                        variable_values,
+                        subscription_type,
+                        node,
+                        self.context.hide_suggestions,
+                        True,
+                    )
                 )
-            )
+            except GraphQLError:
+                # invalid directive arguments are reported by other rules
+                return
             if forbidden_directive_instances:
                 self.report_error(
                     GraphQLError(
